@@ -73,21 +73,42 @@ def apply_op(dev, op):
 
 
 # ------------------------------------------------------------------ device adapters
+def _canon_attr(v):
+    """attribute value -> hashable canonical form (a memoryview's repr is its address, not its content)"""
+    if isinstance(v, memoryview):
+        return ('memoryview', bytes(v))
+    return repr(v)
+
+
 class FixedAdapter:
     name = 'FixedIO'
 
     def __init__(self, data):
-        from flipjump.interpreter.io_devices.FixedIO import FixedIO
-        self.dev = FixedIO(bytes(data))
+        self.data = bytes(data)
+        self.dev = self._fresh()
 
-    def snapshot(self):
-        return copy.deepcopy(self.dev)
+    def _fresh(self):
+        from flipjump.interpreter.io_devices.FixedIO import FixedIO
+        return FixedIO(self.data)
+
+    def snapshot(self, hist=()):
+        """a deep copy of the live device; if the device cannot be copied (e.g. it holds a memoryview) the state is the
+        op history that reaches it, replayed on a fresh device by restore()"""
+        try:
+            return ('copy', copy.deepcopy(self.dev))
+        except Exception:  # noqa
+            return ('replay', tuple(hist))
 
     def restore(self, snap):
-        self.dev = copy.deepcopy(snap)
+        if snap[0] == 'copy':
+            self.dev = copy.deepcopy(snap[1])
+        else:
+            self.dev = self._fresh()
+            for op in snap[1]:
+                apply_op(self.dev, op)
 
     def key(self):
-        return tuple(sorted((k, repr(v)) for k, v in vars(self.dev).items()))
+        return tuple(sorted((k, _canon_attr(v)) for k, v in vars(self.dev).items()))
 
     def extra_check(self, model, flushed=False):
         return None
@@ -97,9 +118,9 @@ class KeyboardOutAdapter(FixedAdapter):
     """the OUTPUT side of the keyboard device (it collects written bits like the other devices); no key events"""
     name = 'KeyboardIO(output)'
 
-    def __init__(self, data):
+    def _fresh(self):
         from flipjump.interpreter.io_devices.KeyboardIO import KeyboardIO, ScriptedKeyEventSource
-        self.dev = KeyboardIO(ScriptedKeyEventSource([]))
+        return KeyboardIO(ScriptedKeyEventSource([]))
 
 
 class StandardAdapter:
@@ -117,7 +138,7 @@ class StandardAdapter:
     def _bind(self):
         self.mod.stdin, self.mod.stdout = self.stdin, self.stdout
 
-    def snapshot(self):
+    def snapshot(self, hist=()):
         return (copy.deepcopy(self.dev), self.stdin.tell(), self.stdout.getvalue())
 
     def restore(self, snap):
@@ -127,7 +148,7 @@ class StandardAdapter:
         self.stdout.write(snap[2])
 
     def key(self):
-        return (tuple(sorted((k, repr(v)) for k, v in vars(self.dev).items())), self.stdin.tell(), self.stdout.getvalue())
+        return (tuple(sorted((k, _canon_attr(v)) for k, v in vars(self.dev).items())), self.stdin.tell(), self.stdout.getvalue())
 
     def extra_check(self, model, flushed=False):
         """the echo on stdout is the chars of the complete bytes written so far - one char per byte value, never re-interpreted;
@@ -173,7 +194,7 @@ def bfs(adapter_factory, data, depth):
                 if k not in seen:
                     seen.add(k)
                     states += 1
-                    nxt.append((ad.snapshot(), m2, hist + (op,)))
+                    nxt.append((ad.snapshot(hist + (op,)), m2, hist + (op,)))
         frontier = nxt
     return states, transitions, bad, outcomes
 
@@ -205,7 +226,7 @@ def straight_bits(adapter_factory, maxlen):
                 m2.step('w%d' % b)
                 apply_op(ad.dev, 'w%d' % b)
                 n += 1
-                stack.append((ad.snapshot(), m2, bits + (b,)))
+                stack.append((ad.snapshot(tuple('w%d' % x for x in bits + (b,))), m2, bits + (b,)))
     return n, bad
 
 
